@@ -5,5 +5,9 @@ CONSTANTS
   MaxReq = 5
   Overlap = TRUE
   ReturnOnEOF = TRUE
+  MaxPause = 0
+  IdleLimit = 0
+  MaxFaults = 0
+  AcceptSurvives = TRUE
 INVARIANTS TypeOK StepOncePerRequestInOrder AckMatches UnknownGetsUnknown AckAfterStep StateIsEffect NoStuckChild
 CHECK_DEADLOCK FALSE
